@@ -912,3 +912,38 @@ mod tests {
 		assert!(res.is_none());
 	}
 }
+
+/// Thin public accessors over the crate-private wire dispatch, for out-of-tree verification
+/// harnesses. Adds no behaviour.
+#[cfg(feature = "_verif_hooks")]
+pub mod verif_hooks {
+	use super::*;
+	use crate::ln::peer_handler::IgnoringMessageHandler;
+	use crate::prelude::*;
+
+	/// What [`read`](super::read) made of a buffer holding a 2-byte type followed by a payload.
+	pub struct DecodedWire {
+		/// The type id of the decoded message (the unknown id for unknown types).
+		pub type_id: u16,
+		/// Whether the dispatch classified the type as unknown.
+		pub unknown: bool,
+		/// The variant and content, rendered with `Debug`.
+		pub debug: String,
+		/// The type id followed by the decoded message's own encoding (empty for unknown types).
+		pub reencoded: Vec<u8>,
+	}
+
+	/// Runs the wire dispatch over `bytes` with no custom message reader.
+	pub fn read_wire(bytes: &[u8]) -> Result<DecodedWire, (msgs::DecodeError, Option<u16>)> {
+		let mut reader = bytes;
+		let msg: Message<core::convert::Infallible> =
+			read(&mut reader, &IgnoringMessageHandler {})?;
+		let unknown = matches!(msg, Message::Unknown(_));
+		let mut reencoded = Vec::new();
+		if !unknown {
+			reencoded.extend_from_slice(&msg.type_id().to_be_bytes());
+			reencoded.extend_from_slice(&msg.encode());
+		}
+		Ok(DecodedWire { type_id: msg.type_id(), unknown, debug: format!("{:?}", msg), reencoded })
+	}
+}
